@@ -101,17 +101,25 @@ def add_bystanders(rng, s):
 
 
 def allowed_paths(s):
+    """(paths that may be created / changed / removed, directories that may appear or go as their parents).  Reject and backup
+    names derive from the name that is written (the -o file, else the file named on the command line, else the new name of a
+    rename / copy, else the target), never from a rename's source, which may only be removed"""
     o = s["opts"]
     al = set()
     outs = []
     for x in s["secs"]:
-        tg = [x["path"], x["newpath"]]
+        moved = x["kind"] in ("rename", "copy")
+        src, dst = (x["newpath"], x["path"]) if (moved and o.get("R")) else (x["path"], x["newpath"])
+        out = dst
         if o.get("file"):
             # the file named on the command line is the selected target; the names in the headers are bystanders
-            tg = [o["file"]] + ([x["newpath"]] if x["kind"] in ("rename", "copy") else [])
+            src = o["file"]
+            out = dst if moved else o["file"]
         if o.get("o"):
-            tg = [o["o"]]
-        outs += tg
+            out = o["o"]
+        outs.append(out)
+        if x["kind"] == "rename" and not o.get("o"):
+            al.add(src)
     for p in outs:
         al.add(p)
         al.add(o.get("r") or p + ".rej")
@@ -410,6 +418,62 @@ def history_runs(run_, exe, rng, n, prop):
                 if "eversed" in r["stdout"].decode("latin-1"):
                     bad.append((idx[j], "-f still guessed that the patch is reversed", rep))
     if prop == "C06":
+        # histories in which the file comes into being: a creating patch run twice, and (under -R) a deleting or changing
+        # patch un-applied twice; the second run carries -N (or -t): recognised as applied, nothing changes / reverted
+        cre = []
+        for _ in range(max(30, n // 2)):
+            how = rng.choice(["add", "R-delete", "R-change"])
+            kind = {"add": "add", "R-delete": "delete", "R-change": "change"}[how]
+            fmt = rng.choice(["unified", "git", "unified", "context"])
+            if kind != "change" and fmt == "context":
+                fmt = "unified"
+            sec = scen.section(rng, rng.choice(["c", "cd/c"]), kind=kind, fmt=fmt, nonl=False)
+            o = {"R": 1} if how != "add" else {}
+            s = scen.base_scenario(rng, [sec], opts=o)
+            if how != "add":
+                t_ = scen.expected_tree(s)
+                s["tree"] = {p_: (k_, m_, d_) for p_, (k_, m_, d_) in t_.items()}
+            s["how"] = how
+            eff = dict(sec)
+            if how != "add":
+                eff = dict(sec, a=sec["b"], b=sec["a"], hs=applyc.reverse_hunks(sec["hs"]))
+            s["eff"] = eff
+            cre.append(s)
+        rc1, bc1, mc1 = l2_family(run_, exe, cre, lambda s, r: None, cls=lambda s, r: "%s first run exit %d" % (s["how"], r["exit"]), label=prop)
+        mism += mc1
+        for name, extra in (("N", {"N": 1}), ("t", {"t": 1})):
+            second = [step2(s, r["tree"], extra) for s, r in zip(cre, rc1) if r["exit"] == 0]
+            firsts = [(s, r) for s, r in zip(cre, rc1) if r["exit"] == 0]
+            rc2, _, mc2 = l2_family(run_, exe, second, lambda s, r: None, cls=lambda s, r, name=name: "%s second run -%s exit %d" % (s["how"], name, r["exit"]), label=prop)
+            mism += mc2
+            for j, ((s, r1_), t, r) in enumerate(zip(firsts, second, rc2)):
+                eff = s["eff"]
+                if eff["hs"] and eff["a"] and first_hunk_still_applies(eff):
+                    continue
+                # a creating patch in 'diff -N' style (real old name, epoch time stamp) states nothing this tool reads as "no file
+                # yet": its -0,0 hunk is an insertion at the top, which always fits -- the premise of the property is not met
+                if not eff["a"] and b"/dev/null" not in s["secs"][0]["text"]:
+                    continue
+                after1 = tree_no_meta(r1_["tree"]); after2 = tree_no_meta(r["tree"])
+                out = r["stdout"].decode("latin-1")
+                rep = dict(scenario=describe(s), second_run=dict(argv=l2.opts_to_argv(t["opts"]), exit=r["exit"], stdout=out[-1200:],
+                                                                 stderr=r["stderr"].decode("latin-1")[-400:], tree=fmt_tree(r["tree"])))
+                nh = len(eff["hs"])
+                if name == "N":
+                    changed = [p_ for p_ in after1 if after2.get(p_) != after1[p_]]
+                    ign = sum(int(a_) for a_, b_, c_ in SUMMARY_RE.findall(out) if c_ == "ignored")
+                    rej = sum(count_reject_hunks(v[2]) for p_, v in after2.items() if p_ not in after1 and p_.endswith(".rej"))
+                    if changed:
+                        bad.append((j, "%s, then the same call with -N: %s changed" % (s["how"], changed[:3]), rep))
+                    elif r["exit"] != 1:
+                        bad.append((j, "%s, then the same call with -N: exit %d instead of 1" % (s["how"], r["exit"]), rep))
+                    elif ign != nh or rej != nh:
+                        bad.append((j, "%s, then the same call with -N: %d hunks, %d reported ignored, %d saved as rejects" % (s["how"], nh, ign, rej), rep))
+                else:
+                    orig = {p_: v for p_, v in s["tree"].items()}
+                    d = diff_trees(orig, {p_: v for p_, v in after2.items() if not p_.endswith(".orig")})
+                    if d or r["exit"] != 0:
+                        bad.append((j, "%s, then the same call with -t does not restore the state before the first run (exit %d): %s" % (s["how"], r["exit"], "; ".join(d[:3])), rep))
         # a patch that empties / deletes its file, run with -N on a tree where that file is already empty (the state an
         # earlier run under --posix, which keeps empty files, leaves behind): detected as applied, every file stays as it is
         emptied = []
@@ -498,6 +562,25 @@ def run(prop, tier, seed):
                     s0["tree"][sec["path"]] = (content[0], content[1], b"bystander with the header name\n")
                 s0["opts"]["file"] = opnd
                 scns.append(add_bystanders(rng, s0))
+            for _ in range(n // 6):
+                # a target that has to be refused (a directory, a FIFO, read-only under --read-only=fail) while the name to write
+                # differs from the name that is read (-o, rename, copy): the rejects belong to the output name
+                kind = rng.choice(["change", "rename", "copy", "change"])
+                sec = scen.section(rng, rng.choice(["rf", "rdir/rf"]), kind=kind, fmt=("git" if kind != "change" else rng.choice(["unified", "context", "git"])))
+                o = dict(rng.choice([{}, {"b": 1}, {"rf": "context"}]))
+                if kind == "change":
+                    o["o"] = rng.choice(["outfile", "osub/outfile"])
+                s0 = scen.base_scenario(rng, [sec], opts=o)
+                how = rng.choice(["dir", "fifo", "rofail"])
+                k_, m_, d_ = s0["tree"][sec["path"]]
+                if how == "dir":
+                    s0["tree"][sec["path"]] = ("D", 0o755, b"")
+                elif how == "fifo":
+                    s0["tree"][sec["path"]] = ("O", 0o644, b"")
+                else:
+                    s0["tree"][sec["path"]] = (k_, 0o444, d_); s0["opts"]["ro"] = "fail"
+                s0["tree"][sec["path"] + ".rej"] = ("R", 0o644, b"someone else's rejects\n")
+                scns.append(add_bystanders(rng, s0))
             _, b2, m2 = l2_family(run_, exe, scns, judge_c16, cls=lambda s, r: "exit %d" % r["exit"])
             bad += b2; mism += m2
             # no temporary may stay behind even when setting one up fails half way (fdopen's fcntl) or the run is killed there
@@ -520,6 +603,27 @@ def run(prop, tier, seed):
             for _ in range(n // 4):
                 o = dict(rng.choice([{"b": 1}, {"b": 1, "z": ".bak"}, {"b": 1, "B": "pre."}, {}, {"bim": 0}]))
                 scns.append(scen.same_file_scenario(rng, opts=o, git=rng.random() < 0.3))
+            for _ in range(n // 4):
+                # several hunks of which only an early one is imperfect (lines inserted at the top of the target: the first hunk
+                # lands at an offset, the later ones exactly at their place relative to it; or the first hunk cannot be placed)
+                while True:
+                    sec = scen.section(rng, rng.choice(["m", "md/m"]), kind="change", fmt=rng.choice(["unified", "context", "git"]), width=rng.choice([1, 2, 3]), nonl=False)
+                    if len(sec["hs"]) >= 2:
+                        break
+                o = dict(rng.choice([{}, {}, {}, {"posix": 1}, {"bim": 0}, {"bim": 1, "posix": 1}, {"f": 1}, {"z": ".bak"}]))
+                s0 = scen.base_scenario(rng, [sec], opts=o)
+                k_, m_, d_ = s0["tree"][sec["path"]]
+                how = rng.choice(["top-insert", "top-insert", "first-broken"])
+                if how == "top-insert":
+                    d_ = b"".join(b"inserted %d\n" % j for j in range(rng.randint(1, 3))) + d_
+                else:
+                    h0 = sec["hs"][0]; pos = h0["os"] - 1 if h0["oc"] else h0["os"]
+                    ls_ = d_.split(b"\n")
+                    for j in range(pos, min(pos + max(h0["oc"], 1), len(ls_))):
+                        ls_[j] = b"broken " + ls_[j]
+                    d_ = b"\n".join(ls_)
+                s0["tree"][sec["path"]] = (k_, m_, d_)
+                scns.append(add_bystanders(rng, s0))
             _, b2, m2 = l2_family(run_, exe, scns, judge_c18, cls=lambda s, r: "backup opts " + ",".join(sorted(k for k in s["opts"] if k in ("b", "B", "z", "posix", "bim", "N"))))
             bad += b2; mism += m2
     except CheckError as e:
